@@ -220,7 +220,7 @@ class C24:
     def gen(self, run_seed, tier):
         rng = Rng(run_seed, ("gen",))
         conc = rng.chance(0.7)
-        nkeys = rng.randint(1, 5)
+        nkeys = rng.weighted([(1, 1), (2, 2), (3, 3), (4, 3), (5, 4)])
         if not conc:
             cap = rng.weighted([(-1, 1), (0, 1), (1, 6), (2, 8), (3, 8), (4, 6)])
             cls = rng.choice(["LRUCache", "ThreadSafeLRUCache"])
